@@ -54,6 +54,13 @@ def messages(remote_as=65002):
         ('update_eor', frame(2, b'\x00\x00\x00\x00')),
         ('update_withdraw', frame(2, b'\x00\x04\x18\x0a\x0a\x0a\x00\x00')),
         ('update_raise', frame(2, b'\x00\x10\x00\x00')),
+        # UPDATEs of other address families (MP_REACH_NLRI / MP_UNREACH_NLRI only): IPv4 flow specification
+        # announce and withdraw, VPNv4, IPv6 unicast - what the handler does with the decoded routes
+        # (version tables, RIB) must not decide whether the FSM sees the UPDATE
+        ('update_flow4', frame(2, bytes.fromhex('000000284001010040020040050400000064900e00160001850000100118c058020218c05901050150911f90'))),
+        ('update_flow4_wd', frame(2, bytes.fromhex('00000012900f000e0001850a0118c058020218c05901'))),
+        ('update_vpnv4', frame(2, bytes.fromhex('000000334001010040020040050400000064900e00210001800c000000000000000002020202007800019100000064000000640b0b0b0b'))),
+        ('update_v6', frame(2, bytes.fromhex('0000002e4001010040020040050400000064900e001c0002011020010db8000000000000000000000002003020010db80001'))),
         ('route_refresh_long', frame(5, b'\x00\x01\x00\x01\x00')),
         ('notif_version', frame(3, b'\x02\x01')),
         # every other RFC error code (and one that is not assigned), with and without data
